@@ -380,7 +380,20 @@ def r5(cx):
     a = m.one(r"^acts::scheduler::runtime::Runtime::ack$")
     cx.ob("C09.R5", "ack:id", any(c.q == STORE + "set_message" and pa.root(a, c.args[1]) == ("param", 2, a.names.get(2), ()) for c in a.calls()),
           "ack marks the message with the given id", a.loc())
-    cx.floor("C09.R5", 13)
+    # the ack is not dropped: Store::set_message writes the status it is given whenever the message exists (a "status only
+    # moves forward" shortcut would swallow the ack of a message that ran out of retries: it stays `error` and a redo sends it again)
+    sm_ = m.one("^" + re.escape(STORE) + r"set_message$")
+    upd_ = [c for c in sm_.calls() if c.kind == "virtual" and c.q.endswith("DbCollection::update")]
+    if upd_:
+        from vlib.model import conditions_of
+        from rules.c01 import gdesc as _gd
+        conds_ = sorted({_gd(m, g) for g in conditions_of(m, sm_, upd_[0].b, mode="alias") if not g.neutral})
+        extra_ = [d for d in conds_ if not re.search(r"^match\(DbCollection::find\)=Ok$|^match\(.*branch.*\)=Continue$|::is_ok=True$", d)]
+        cx.ob("C09.R5", "ack:always-written", not extra_,
+              "Store::set_message stores the given status whenever the message exists (conditions: %s)%s" % (conds_, "" if not extra_ else " - it also depends on %s" % extra_), upd_[0].loc)
+    else:
+        cx.ob("C09.R5", "ack:always-written", False, "Store::set_message updates the message row", sm_.loc())
+    cx.floor("C09.R5", 14)
 
 
 def r6(cx):
